@@ -1,4 +1,5 @@
 use indexmap::IndexMap;
+use petgraph::algo::toposort;
 use petgraph::prelude::*;
 use rustc_hash::FxHashMap;
 
@@ -96,10 +97,20 @@ where
 
         let forest = self.build_specialization_forest()?;
 
-        // TypeVisitable every root in the forest & set specialization
-        // priority for the tree that is the root of.
-        for root_idx in forest.externals(Direction::Incoming) {
-            self.set_priorities(root_idx, &forest, 0, &mut result);
+        // Visit the impls from the least to the most special. An impl can be
+        // reached from a root along several paths (in a chain of three impls
+        // the last one specializes both of the others), so its priority is
+        // the length of the longest such path: one more than the highest
+        // priority among the impls it specializes.
+        let order = toposort(&forest, None)
+            .map_err(|_| CoherenceError::OverlappingImpls(self.trait_id))?;
+        for idx in order {
+            let p = forest
+                .neighbors_directed(idx, Direction::Incoming)
+                .map(|less_special| result.priority(forest[less_special]).0 + 1)
+                .max()
+                .unwrap_or(0);
+            result.insert(forest[idx], SpecializationPriority(p));
         }
 
         Ok(Arc::new(result))
@@ -123,27 +134,5 @@ where
         })?;
 
         Ok(forest)
-    }
-
-    // Recursively set priorities for those node and all of its children.
-    fn set_priorities(
-        &self,
-        idx: NodeIndex,
-        forest: &Graph<ImplId<I>, ()>,
-        p: usize,
-        map: &mut SpecializationPriorities<I>,
-    ) {
-        // Get the impl datum recorded at this node and reset its priority
-        {
-            let impl_id = forest
-                .node_weight(idx)
-                .expect("index should be a valid index into graph");
-            map.insert(*impl_id, SpecializationPriority(p));
-        }
-
-        // TypeVisitable all children of this node, setting their priority to this + 1
-        for child_idx in forest.neighbors(idx) {
-            self.set_priorities(child_idx, forest, p + 1, map);
-        }
     }
 }
